@@ -1306,7 +1306,19 @@ func (e *Engine) mergeBranches(fr *frame, entry *State, body func(kk cont), k co
 		}
 		nv := v0
 		nv.T = pick(func(i int) *sx.T { return col[i].st.vars[obj].T })
+		nv.KnownLen, nv.Cells = 0, nil
 		m.vars[obj] = e.name(m, nv)
+		if nv.Ty.K == spec.KList && !m.vars[obj].T.IsAtom() {
+			n := e.sym("t", nv.Ty.Sort())
+			m.defs = append(m.defs, sx.App("=", n, nv.T))
+			nv.T = n
+			m.vars[obj] = nv
+		}
+		if nv.Ty.K == spec.KList && m.vars[obj].T.IsAtom() {
+			// the merged list's length as a term of its own (triggers over len(.) then find the merged value)
+			m.facts = append(m.facts, sx.App("=", sx.App(nv.Ty.Name+"_len", m.vars[obj].T),
+				pick(func(i int) *sx.T { return sx.App(nv.Ty.Name+"_len", col[i].st.vars[obj].T) })))
+		}
 	}
 	// store
 	sameStore := true
